@@ -158,7 +158,9 @@ def shards(tier):
                 out.append({'kind': 'V', 'i': i, 'fid': fid, 'tier': tier, 'part': part, 'parts': 8})
         else:
             out.append({'kind': 'V', 'i': i, 'fid': fid, 'tier': tier})
-    for j in range(len(c05.occurrence_types())):
+    for j, (ofid, ot, omn, omx) in enumerate(c05.occurrence_types()):
+        if isinstance(ot[2].get('default'), list):
+            continue      # (a list-valued default cannot be written into an XML Schema: dict documents and HttpRpc only, see C05)
         out.append({'kind': 'O', 'j': j, 'tier': tier})
     return out
 
